@@ -629,3 +629,47 @@ func (e *End) Debug() string {
 	return fmt.Sprintf("%s{closed=%v in:buf=%d cap=%d delivered=%d wclosed=%v out:buf=%d cap=%d hard=%v ops=%d/%d written=%d rclosed=%v rgate=%s}",
 		e.Name, e.closed, len(e.rd.buf), e.rd.Cap, e.rd.Delivered, e.rd.wclosed, len(e.wr.buf), e.wr.Cap, e.wr.HardCap, e.wr.ops, e.wr.OpBudget, e.wr.Written, e.wr.rclosed, gate)
 }
+
+// Listener is a simulated net.Listener: connections are offered with Offer.
+type Listener struct {
+	S      *Sim
+	name   string
+	ch     chan net.Conn
+	closed chan struct{}
+}
+
+// NewListener must be called inside the bubble.
+func NewListener(s *Sim, name string) *Listener {
+	return &Listener{S: s, name: name, ch: make(chan net.Conn, 16), closed: make(chan struct{})}
+}
+
+// Offer hands the server side of a connection to Accept.
+func (l *Listener) Offer(c net.Conn) {
+	raceOff()
+	l.ch <- c
+	raceOn()
+}
+
+func (l *Listener) Accept() (net.Conn, error) {
+	raceOff()
+	defer raceOn()
+	select {
+	case c := <-l.ch:
+		return c, nil
+	case <-l.closed:
+		return nil, net.ErrClosed
+	}
+}
+
+func (l *Listener) Close() error {
+	raceOff()
+	defer raceOn()
+	select {
+	case <-l.closed:
+	default:
+		close(l.closed)
+	}
+	return nil
+}
+
+func (l *Listener) Addr() net.Addr { return simAddr(l.name) }
